@@ -37,20 +37,28 @@ def run(ctx):
             continue        # the refusal is deterministic; one run per path
         items2.append(("art-build", dict(mode=b["mode"], depth=b["depth"], batch=b["batch"], path=b["path"], cli=cli, dir=ctx.scratch), b["procs"]))
     recs = first + artlib.execute(ctx, items2, nproc=8)
+    # the exported Solidity verifier of each set-up system expects exactly one public input
+    import os
+    sol = [("art-solidity", dict(cli=cli, keys=os.path.join(ctx.scratch, "ps-%s-%d-%d.ps" % (m, d, b)), mode=m), 0) for m, d, b in setup_dims]
+    recs += artlib.execute(ctx, sol, nproc=3)
     bad = artlib.validate(ctx, recs, mod, reps, "Artifacts trace (%d builds)" % len(recs))
     if bad is not None:
         r = recs[bad - 1]
-        same = [x for x in recs[:bad - 1] if (x["mode"], x["depth"], x["batch"]) == (r["mode"], r["depth"], r["batch"]) and not x["err"]]
-        why = ("build fails: " + r["err"]) if r["err"] and not (r["mode"] == "deletion" and r["depth"] > 31) else \
+        if r["event"] == "solidity":
+            ctx.violation("exported Solidity verifier (%s): %s" % (r["keys"], r["err"] or "%d public inputs, the circuit must have exactly one" % r["inputs"]), dict(kind="c12-solidity", rejected=r))
+            r = None
+        same = [x for x in recs[:bad - 1] if r and x["event"] == "build" and (x["mode"], x["depth"], x["batch"]) == (r["mode"], r["depth"], r["batch"]) and not x["err"]]
+        why = None if r is None else ("build fails: " + r["err"]) if r["err"] and not (r["mode"] == "deletion" and r["depth"] > 31) else \
               ("a deletion circuit of depth %d was built although depths > 31 must be refused" % r["depth"]) if (r["mode"] == "deletion" and r["depth"] > 31 and not r["err"]) else \
               ("%d public inputs" % r["nbPublic"]) if r["nbPublic"] != 1 else \
               ("constraint system differs from an earlier build of the same dimensions (%s via %s/procs=%s)" % (same[0]["digest"][:16], same[0]["path"], same[0]["procs"]) if same else "?")
-        ctx.violation("build event %d rejected by Artifacts.tla: %s %d/%d via %s procs=%s: %s" % (bad, r["mode"], r["depth"], r["batch"], r["path"], r["procs"], why),
+        if r is not None:
+          ctx.violation("build event %d rejected by Artifacts.tla: %s %d/%d via %s procs=%s: %s" % (bad, r["mode"], r["depth"], r["batch"], r["path"], r["procs"], why),
                       dict(kind="c12", rejected=r, earlier=same[:2]))
     ctx.samples += recs[:3]
     ctx.evaluations = len(recs)
     ctx.traces_validated = len(recs)
-    ctx.cov["distinct_nontrivial"] = len(set((r["mode"], r["depth"], r["batch"], r["path"], r["procs"]) for r in recs))
+    ctx.cov["distinct_nontrivial"] = len(set((r["mode"], r["depth"], r["batch"], r["path"], r["procs"]) for r in recs if r["event"] == "build"))
     ctx.cov["builds"] = len(recs)
     ctx.cov["dims"] = dims + guard
 
